@@ -352,7 +352,7 @@ Definition no_stutter : Prop := forall i, (S i < length tr)%nat -> pc_at (S i) <
    once and leaves the patch in place *)
 Lemma step_over_core_once : forall bps m i b, no_stutter ->
   WF bps m -> (S i < length tr)%nat -> In b bps -> b_addr b = pc_at i ->
-  exists m', step_over_core code tr (proc_at m i) b = Ok (proc_at m' (S i), b) /\ WF bps m' /\
+  exists m', step_over_core code tr (proc_at m i) b = Ok (proc_at m' (S i), b, false) /\ WF bps m' /\
              (forall x, m' x = m x).
 Proof.
   intros bps m i b NS W Hi Hb Ha.
@@ -375,11 +375,11 @@ Proof.
   replace (p_alive (proc_at m1 (S i))) with true by (symmetry; unfold proc_at; cbn [p_alive]; apply Nat.ltb_lt; lia).
   replace (p_pc (proc_at m1 (S i))) with (pc_at (S i)) by reflexivity.
   destruct (pc_at (S i) =? pc_at i) eqn:Est. { apply N.eqb_eq in Est. exfalso. eapply NS; eauto. }
-  cbn [bind].
+  cbn [bind fst snd].
   assert (Hal2: p_alive (proc_at m1 (S i)) = true). { unfold proc_at; cbn [p_alive]. apply Nat.ltb_lt. lia. }
   destruct (bp_enable_ok (proc_at m1 (S i)) (bp_set b (b_saved b) false) Hal2) as (p2 & lo & E2 & Hlo & S2 & M2).
   { cbn [b_addr bp_set]. eapply wf_readable; eauto. }
-  rewrite E2. cbn [b_addr bp_set p_mem proc_at] in Hlo, M2.
+  rewrite E2. cbn [bind fst snd]. cbn [b_addr bp_set p_mem proc_at] in Hlo, M2.
   assert (Hlo': lo = b_saved b).
   { unfold m1 in Hlo. rewrite M1 in Hlo. rewrite N.eqb_refl in Hlo. congruence. }
   subst lo.
@@ -458,15 +458,43 @@ Proof.
   destruct Hex as (j & Hj & Ej & Hq). rewrite (next_hit_from_here B i j Hj Hq Ej) in H. discriminate.
 Qed.
 
+(* stepping over a breakpoint on the instruction that ends the process (repair c0ceee6): the
+   original instruction is executed, the step reports the exit, the breakpoint stays disabled *)
+Lemma step_over_core_exit : forall bps m i b,
+  WF bps m -> S i = length tr -> In b bps -> b_addr b = pc_at i ->
+  exists m1, step_over_core code tr (proc_at m i) b
+             = Ok (proc_at m1 (length tr), bp_set b (b_saved b) false, true).
+Proof.
+  intros bps m i b W Hi Hb Ha.
+  destruct (wf_bp _ _ W b Hb) as (He & Hs & Hr).
+  assert (Hi': (i < length tr)%nat) by lia.
+  assert (Hal: p_alive (proc_at m i) = true). { unfold proc_at; cbn [p_alive]. apply Nat.ltb_lt. lia. }
+  destruct (bp_disable_ok (proc_at m i) b Hal) as (p1 & E1 & S1 & M1).
+  { eapply wf_readable; eauto. }
+  unfold step_over_core. rewrite E1. cbn [bind fst snd].
+  set (m1 := p_mem p1).
+  assert (Hp1: p1 = proc_at m1 i).
+  { destruct p1 as [m1' a1 ps1 pc1 ex1]. destruct S1 as (A&B&C&D). cbn in *. subst. reflexivity. }
+  assert (W1: WF (del_bp (b_addr b) bps) m1).
+  { eapply wf_del; [exact W|]. intro x. unfold m1. rewrite M1. cbn [p_mem proc_at]. now rewrite Hs. }
+  rewrite Hp1. replace (p_pc (proc_at m1 i)) with (pc_at i) by reflexivity.
+  unfold fuel0. cbn [BpMachine.single_step].
+  assert (Hn: ~ In (pc_at i) (addrs (del_bp (b_addr b) bps))).
+  { rewrite <- Ha. apply nodup_del, W. }
+  rewrite (cpu_step_exec _ _ _ W1 Hi' Hn). cbn [fst snd].
+  replace (p_alive (proc_at m1 (S i))) with false
+    by (symmetry; unfold proc_at; cbn [p_alive]; apply Nat.ltb_ge; lia).
+  cbn [bind fst snd]. rewrite Hi. exists m1. reflexivity.
+Qed.
+
 Record Steady (bps : list bp) (i : nat) : Prop := mk_Steady {
   st_types : forall b, In b bps -> b_ty b = TUser \/ b_ty b = TLinker \/ b_ty b = TEntry;
-  st_entry : forall b, In b bps -> b_ty b = TEntry -> forall k, (i <= k < length tr)%nat -> pc_at k <> b_addr b;
-  st_last : forall b, In b bps -> b_addr b <> pc_at (length tr - 1)
+  st_entry : forall b, In b bps -> b_ty b = TEntry -> forall k, (i <= k < length tr)%nat -> pc_at k <> b_addr b
 }.
 
 Lemma steady_mono : forall bps i j, Steady bps i -> (i <= j)%nat -> Steady bps j.
 Proof.
-  intros bps i j S Hij. constructor; [apply S| |apply S].
+  intros bps i j S Hij. constructor; [apply S|].
   intros b Hb Ht k Hk. apply (st_entry _ _ S b Hb Ht). lia.
 Qed.
 
@@ -509,9 +537,35 @@ Proof. intros. unfold set_pc. cbn [p_pc]. lia. Qed.
 Lemma trap_rewind : forall m j, set_pc (set_pc (proc_at m j) (pc_at j + 1)) (pc_at j) = proc_at m j.
 Proof. reflexivity. Qed.
 
-Definition exit_state (s : st) (m : mem) : st :=
-  let y := disable_all off (s_reg s) (proc_at m (length tr)) in
-  mk_st (fst y) (snd y) Exited (s_detached s) (s_external s) FReaped.
+(* what every way of seeing the program end leaves behind *)
+Definition ExitedOK (s' : st) : Prop :=
+  s_status s' = Exited /\ s_fate s' = FReaped /\ r_bps (s_reg s') = [] /\
+  p_exec (s_proc s') = tr /\ p_alive (s_proc s') = false.
+(* the exit is reported with the program's code: on_exit(exit_code) fired, either as the
+   DebugeeExit stop of `continue` or as Err(ProcessExit(exit_code)) of a step over the last instruction *)
+Definition exit_seen (r : cres) : Prop := r = CStop (StopExit exit_code) \/ r = CExitErr.
+
+Lemma disable_all_from_dead : forall l dis p, p_alive p = false -> snd (disable_all_from off l dis p) = p.
+Proof.
+  induction l as [|c t IHl]; intros dis p Hal; [reflexivity|].
+  cbn [disable_all_from]. rewrite (bp_disable_dead p c Hal). now apply IHl.
+Qed.
+
+Lemma exit_by_step_ok : forall s bps m1, ExitedOK (exit_by_step off s bps (proc_at m1 (length tr))).
+Proof.
+  intros. unfold ExitedOK, exit_by_step, disable_all. cbn [s_status s_fate s_reg s_proc fst snd r_bps r_dis].
+  rewrite disable_all_from_dead by (cbn [p_alive proc_at]; apply Nat.ltb_irrefl).
+  cbn [p_exec p_alive proc_at]. repeat split; auto using firstn_all, Nat.ltb_irrefl.
+Qed.
+
+Lemma exit_state_ok : forall s m1,
+  ExitedOK (let y := disable_all off (s_reg s) (proc_at m1 (length tr)) in
+            mk_st (fst y) (snd y) Exited (s_detached s) (s_external s) FReaped).
+Proof.
+  intros. unfold ExitedOK, disable_all. cbn [s_status s_fate s_reg s_proc fst snd r_bps].
+  rewrite disable_all_from_dead by (cbn [p_alive proc_at]; apply Nat.ltb_irrefl).
+  cbn [p_exec p_alive proc_at]. repeat split; auto using firstn_all, Nat.ltb_irrefl.
+Qed.
 
 (* C01 core: from position i, with a well-formed steady registry, the loop stops at the first
    position >= i whose address carries a USER breakpoint, reporting that pc and that number,
@@ -521,10 +575,10 @@ Lemma cont_steady : no_stutter -> forall fuel i m s,
   s_proc s = proc_at m i -> (i < length tr)%nat -> WF bps m -> Steady bps i -> (fuel > length tr - i)%nat ->
   match next_hit_from (uaddrs bps) (skipn i tr) i with
   | Some j => exists m' b, cont_loop code tr rbrk off has_place exit_code fuel s
-                           = Ok (with_bps s bps (proc_at m' j), StopBp (pc_at j) (b_num b)) /\
+                           = Ok (with_bps s bps (proc_at m' j), CStop (StopBp (pc_at j) (b_num b))) /\
                 find_bp (pc_at j) bps = Some b /\ b_ty b = TUser /\ WF bps m' /\ (forall x, m' x = m x)
-  | None => exists m', cont_loop code tr rbrk off has_place exit_code fuel s
-                           = Ok (exit_state s m', StopExit exit_code) /\ (forall x, m' x = m x)
+  | None => exists s' r, cont_loop code tr rbrk off has_place exit_code fuel s = Ok (s', r) /\
+                exit_seen r /\ ExitedOK s'
   end.
 Proof.
   intros NS fuel. induction fuel as [|f IH]; intros i m s bps Hp Hi W St Hf; [lia|].
@@ -546,13 +600,6 @@ Proof.
       rewrite (next_hit_from_here (uaddrs bps) i j Hj Hnu Hju).
       exists m, b. split; [reflexivity|]. split; [exact Eb|]. split; [exact Et|]. split; [exact W|reflexivity].
     + (* linker-map breakpoint: step over, go on *)
-      assert (HSj: (S j < length tr)%nat).
-      { pose proof (st_last _ _ St b Hb) as Hl. rewrite Hab in Hl.
-        destruct (Nat.eq_dec j (length tr - 1)) as [->|]; [congruence|lia]. }
-      unfold step_over_breakpoint. cbn [p_pc proc_at]. rewrite Eb.
-      destruct (wf_bp _ _ W b Hb) as (Hen & _). rewrite Hen.
-      destruct (step_over_core_once bps m j b NS W HSj Hb Hab) as (m' & Ec & W' & Hm').
-      rewrite Ec. cbn [bind fst snd]. rewrite (put_bp_same _ _ (wf_nodup _ _ W) Hb).
       assert (Hnj: memb (pc_at j) (uaddrs bps) = false).
       { apply not_true_is_false. intro H. apply memb_iff in H. apply uaddrs_in in H.
         destruct H as [c (Hc & Htc & Hac)].
@@ -561,15 +608,25 @@ Proof.
       { intros k Hk. destruct (Nat.eq_dec k j) as [Ekj|Ekj]; [rewrite Ekj; exact Hnj|apply Hnu; lia]. }
       assert (Hisj: (i <= S j <= length tr)%nat) by lia.
       rewrite (next_hit_from_skip (uaddrs bps) i (S j) Hisj Hnu').
-      specialize (IH (S j) m' (with_bps s bps (proc_at m' (S j)))).
-      cbn [with_bps with_rp s_reg s_proc r_bps] in IH.
-      assert (Hle: (i <= S j)%nat) by lia. assert (Hfu: (f > length tr - S j)%nat) by lia.
-      specialize (IH eq_refl HSj W' (steady_mono _ _ _ St Hle) Hfu).
-      destruct (next_hit_from (uaddrs bps) (skipn (S j) tr) (S j)) as [j'|].
-      * destruct IH as (m'' & b' & E & F & T & W'' & Hm''). exists m'', b'.
-        split; [exact E|]. split; [exact F|]. split; [exact T|]. split; [exact W''|].
-        intro x. rewrite Hm''. apply Hm'.
-      * destruct IH as (m'' & E & Hm''). exists m''. split; [exact E|]. intro x. rewrite Hm''. apply Hm'.
+      unfold step_over_breakpoint. cbn [p_pc proc_at]. rewrite Eb.
+      destruct (wf_bp _ _ W b Hb) as (Hen & _). rewrite Hen.
+      destruct (Nat.eq_dec (S j) (length tr)) as [Elast|Elast].
+      * (* it sits on the last instruction: the step ends the process *)
+        destruct (step_over_core_exit bps m j b W Elast Hb Hab) as (m1 & Ec).
+        rewrite Ec. cbn [bind fst snd]. rewrite Elast, skipn_all. cbn [next_hit_from].
+        eexists. eexists. split; [reflexivity|]. split; [right; reflexivity|apply exit_by_step_ok].
+      * assert (HSj: (S j < length tr)%nat) by lia.
+        destruct (step_over_core_once bps m j b NS W HSj Hb Hab) as (m' & Ec & W' & Hm').
+        rewrite Ec. cbn [bind fst snd]. rewrite (put_bp_same _ _ (wf_nodup _ _ W) Hb).
+        specialize (IH (S j) m' (with_bps s bps (proc_at m' (S j)))).
+        cbn [with_bps with_rp s_reg s_proc r_bps] in IH.
+        assert (Hle: (i <= S j)%nat) by lia. assert (Hfu: (f > length tr - S j)%nat) by lia.
+        specialize (IH eq_refl HSj W' (steady_mono _ _ _ St Hle) Hfu).
+        destruct (next_hit_from (uaddrs bps) (skipn (S j) tr) (S j)) as [j'|].
+        -- destruct IH as (m'' & b' & E & F & T & W'' & Hm''). exists m'', b'.
+           split; [exact E|]. split; [exact F|]. split; [exact T|]. split; [exact W''|].
+           intro x. rewrite Hm''. apply Hm'.
+        -- exact IH.
     + (* entry point reached again: excluded by Steady *)
       exfalso. apply (st_entry _ _ St b Hb Et j); [lia|]. congruence.
   - (* no patched address ahead: runs to the exit *)
@@ -579,12 +636,12 @@ Proof.
     { intros k Hk. apply not_true_is_false. intro H. apply memb_iff in H. apply uaddrs_sub in H.
       apply memb_iff in H. rewrite (next_hit_none_trace _ _ Hil En k Hk) in H. discriminate. }
     rewrite (next_hit_from_none (uaddrs bps) i Hil Hnone).
-    exists m. split; [reflexivity|auto].
+    eexists. eexists. split; [reflexivity|]. split; [left; reflexivity|apply exit_state_ok].
 Qed.
 
 (* ---------- C01: continue from a prompt ---------- *)
 (* a prompt of a running debuggee: position i, well-formed registry, no temporaries, the entry
-   point is behind us, no breakpoint on the instruction that ends the process *)
+   point is behind us *)
 Record Prompt (s : st) (i : nat) (m : mem) : Prop := mk_Prompt {
   pr_status : s_status s = InProgress;
   pr_proc : s_proc s = proc_at m i;
@@ -597,63 +654,63 @@ Theorem C01_continue : no_stutter -> forall s i m, Prompt s i m ->
   let bps := r_bps (s_reg s) in
   match next_hit tr (uaddrs bps) (S i) with
   | Some j => exists m' b s', continue_execution code tr rbrk off has_place exit_code s
-                                = Ok (s', StopBp (pc_at j) (b_num b)) /\
+                                = Ok (s', CStop (StopBp (pc_at j) (b_num b))) /\
                 find_bp (pc_at j) bps = Some b /\ b_ty b = TUser /\
-                r_bps (s_reg s') = bps /\ Prompt s' j m' /\ (forall x, m' x = m x)
-  | None => exists s', continue_execution code tr rbrk off has_place exit_code s = Ok (s', StopExit exit_code) /\
-                s_status s' = Exited /\ s_fate s' = FReaped /\ r_bps (s_reg s') = [] /\
-                p_exec (s_proc s') = tr
+                r_bps (s_reg s') = bps /\ Prompt s' j m' /\ (forall x, m' x = m x) /\
+                r_dis (s_reg s') = r_dis (s_reg s)
+  | None => exists s' r, continue_execution code tr rbrk off has_place exit_code s = Ok (s', r) /\
+                exit_seen r /\ ExitedOK s'
   end.
 Proof.
   intros NS s i m [Hst Hp Hi W St] bps. unfold continue_execution. rewrite Hst.
-  (* where the loop starts: S i after stepping over a breakpoint at pc, i otherwise *)
-  assert (Hstart: exists i0 m0, (i <= i0 <= S i)%nat /\ (i0 < length tr)%nat /\
-            step_over_breakpoint code tr (r_bps (s_reg s)) (s_proc s) = Ok (bps, proc_at m0 i0) /\
-            WF bps m0 /\ (forall x, m0 x = m x) /\
-            (i0 = i -> ~ In (pc_at i) (addrs bps))).
-  { unfold step_over_breakpoint. rewrite Hp. cbn [p_pc proc_at]. fold bps.
-    destruct (find_bp (pc_at i) bps) as [b|] eqn:Eb.
-    - destruct (find_bp_some _ _ _ Eb) as [Hb Hab].
-      destruct (wf_bp _ _ W b Hb) as (Hen & _). rewrite Hen.
-      assert (HSi: (S i < length tr)%nat).
-      { pose proof (st_last _ _ St b Hb) as Hl. rewrite Hab in Hl.
-        destruct (Nat.eq_dec i (length tr - 1)) as [Ei|]; [rewrite Ei in Hl; congruence|lia]. }
+  unfold step_over_breakpoint. rewrite Hp. cbn [p_pc proc_at]. fold bps.
+  (* the loop from position i0 *)
+  assert (Hloop: forall i0 m0, (i <= i0 <= S i)%nat -> (i0 < length tr)%nat -> WF bps m0 -> (forall x, m0 x = m x) ->
+            (i0 = i -> ~ In (pc_at i) (addrs bps)) ->
+            match next_hit tr (uaddrs bps) (S i) with
+            | Some j => exists m' b s', cont_loop code tr rbrk off has_place exit_code (loop_fuel tr)
+                                          (with_bps s bps (proc_at m0 i0))
+                                = Ok (s', CStop (StopBp (pc_at j) (b_num b))) /\
+                find_bp (pc_at j) bps = Some b /\ b_ty b = TUser /\
+                r_bps (s_reg s') = bps /\ Prompt s' j m' /\ (forall x, m' x = m x) /\
+                r_dis (s_reg s') = r_dis (s_reg s)
+            | None => exists s' r, cont_loop code tr rbrk off has_place exit_code (loop_fuel tr)
+                                          (with_bps s bps (proc_at m0 i0)) = Ok (s', r) /\
+                exit_seen r /\ ExitedOK s'
+            end).
+  { intros i0 m0 Hi0 Hi0l W0 Hm0 Hnot.
+    assert (St0: Steady bps i0) by (eapply steady_mono; [exact St|lia]).
+    pose proof (cont_steady NS (loop_fuel tr) i0 m0 (with_bps s bps (proc_at m0 i0))) as C.
+    cbn [with_bps with_rp s_reg s_proc r_bps] in C.
+    assert (Hfu: (loop_fuel tr > length tr - i0)%nat) by (unfold loop_fuel; lia).
+    specialize (C eq_refl Hi0l W0 St0 Hfu).
+    assert (Hsame: next_hit_from (uaddrs bps) (skipn i0 tr) i0 = next_hit tr (uaddrs bps) (S i)).
+    { unfold next_hit. destruct (Nat.eq_dec i0 i) as [E0|E0].
+      - subst i0. apply next_hit_from_skip; [lia|]. intros k Hk. assert (k = i) by lia. subst k.
+        apply not_true_is_false. intro H. apply memb_iff in H. apply uaddrs_sub in H. now apply Hnot.
+      - assert (i0 = S i) by lia. now subst. }
+    rewrite <- Hsame.
+    destruct (next_hit_from (uaddrs bps) (skipn i0 tr) i0) as [j|] eqn:En.
+    - destruct C as (m' & b & E & F & T & W' & Hm').
+      apply next_hit_trace in En; [|lia]. destruct En as (Hj & _).
+      exists m', b. eexists. split; [exact E|]. split; [exact F|]. split; [exact T|]. split; [reflexivity|].
+      split; [|split; [intro x; rewrite Hm'; apply Hm0|reflexivity]].
+      constructor; cbn [with_bps with_rp s_status s_proc s_reg r_bps]; auto; [lia|].
+      eapply steady_mono; [exact St|lia].
+    - exact C. }
+  destruct (find_bp (pc_at i) bps) as [b|] eqn:Eb.
+  - destruct (find_bp_some _ _ _ Eb) as [Hb Hab].
+    destruct (wf_bp _ _ W b Hb) as (Hen & _). rewrite Hen.
+    destruct (Nat.eq_dec (S i) (length tr)) as [Elast|Elast].
+    + (* a breakpoint on the instruction that ends the process: continuing reports the exit *)
+      destruct (step_over_core_exit bps m i b W Elast Hb Hab) as (m1 & Ec).
+      rewrite Ec. cbn [bind fst snd]. unfold next_hit. rewrite Elast, skipn_all. cbn [next_hit_from].
+      eexists. eexists. split; [reflexivity|]. split; [right; reflexivity|apply exit_by_step_ok].
+    + assert (HSi: (S i < length tr)%nat) by lia.
       destruct (step_over_core_once bps m i b NS W HSi Hb Hab) as (m' & Ec & W' & Hm').
       rewrite Ec. cbn [bind fst snd]. rewrite (put_bp_same bps b (wf_nodup _ _ W) Hb).
-      exists (S i), m'. split; [lia|]. split; [exact HSi|]. split; [reflexivity|]. split; [exact W'|].
-      split; [exact Hm'|]. intro Hc. lia.
-    - exists i, m. split; [lia|]. split; [exact Hi|]. split; [reflexivity|]. split; [exact W|].
-      split; [reflexivity|]. intros _. now apply find_bp_none. }
-  destruct Hstart as (i0 & m0 & Hi0 & Hi0l & Eso & W0 & Hm0 & Hnot). rewrite Eso. cbn [bind fst snd].
-  assert (St0: Steady bps i0) by (eapply steady_mono; [exact St|lia]).
-  pose proof (cont_steady NS (loop_fuel tr) i0 m0 (with_bps s bps (proc_at m0 i0))) as C.
-  cbn [with_bps with_rp s_reg s_proc r_bps] in C.
-  assert (Hfu: (loop_fuel tr > length tr - i0)%nat) by (unfold loop_fuel; lia).
-  specialize (C eq_refl Hi0l W0 St0 Hfu).
-  (* the hit computed from i0 is the hit computed from S i *)
-  assert (Hsame: next_hit_from (uaddrs bps) (skipn i0 tr) i0 = next_hit tr (uaddrs bps) (S i)).
-  { unfold next_hit. destruct (Nat.eq_dec i0 i) as [E0|E0].
-    - subst i0. apply next_hit_from_skip; [lia|]. intros k Hk. assert (k = i) by lia. subst k.
-      apply not_true_is_false. intro H. apply memb_iff in H. apply uaddrs_sub in H. now apply Hnot.
-    - assert (i0 = S i) by lia. now subst. }
-  rewrite <- Hsame.
-  destruct (next_hit_from (uaddrs bps) (skipn i0 tr) i0) as [j|] eqn:En.
-  - destruct C as (m' & b & E & F & T & W' & Hm').
-    apply next_hit_trace in En; [|lia]. destruct En as (Hj & _).
-    exists m', b. eexists. split; [exact E|]. split; [exact F|]. split; [exact T|]. split; [reflexivity|].
-    split; [|intro x; rewrite Hm'; apply Hm0].
-    constructor; cbn [with_bps with_rp s_status s_proc s_reg r_bps]; auto; [lia|].
-    eapply steady_mono; [exact St|lia].
-  - destruct C as (m' & E & Hm'). eexists. split; [exact E|].
-    unfold exit_state. cbn [s_status s_fate s_reg s_proc]. split; [reflexivity|]. split; [reflexivity|].
-    unfold disable_all. cbn [fst snd r_bps]. split; [reflexivity|].
-    (* every disable fails on the dead process: the process record is untouched *)
-    assert (Hd: forall l dis p, p_alive p = false -> snd (disable_all_from off l dis p) = p).
-    { induction l as [|c t IHl]; intros dis p Hal; [reflexivity|].
-      cbn [disable_all_from]. rewrite (bp_disable_dead p c Hal). now apply IHl. }
-    rewrite Hd.
-    + cbn [p_exec proc_at]. apply firstn_all.
-    + cbn [p_alive proc_at]. apply Nat.ltb_irrefl.
+      apply Hloop; auto; lia.
+  - cbn [bind fst snd]. apply Hloop; auto; try lia. intros _. now apply find_bp_none.
 Qed.
 
 Lemma filter_id : forall {A} (f : A -> bool) l, (forall x, In x l -> f x = true) -> filter f l = l.
@@ -676,12 +733,11 @@ Proof. intros s i m P. rewrite (pr_proc _ _ _ P). cbn. auto. Qed.
 (* break <addr> at a prompt *)
 Theorem add_prompt : forall s i m a c,
   Prompt s i m -> mapped code a = true -> has_place a = true -> readable code a -> code a = Some c ->
-  a <> pc_at (length tr - 1) ->
   exists s' m', add_at_addr code has_place s a = (s', OAdded (r_next (s_reg s))) /\ Prompt s' i m' /\
     r_bps (s_reg s') = ins_bp (mk_bp a (r_next (s_reg s)) c true TUser) (r_bps (s_reg s)) /\
-    (forall x, m' x = if x =? a then Some INT3 else m x).
+    (forall x, m' x = if x =? a then Some INT3 else m x) /\ r_dis (s_reg s') = r_dis (s_reg s).
 Proof.
-  intros s i m a c [Hst Hp Hi W St] Hm Hpl Hr Hc Hlast. unfold add_at_addr. rewrite Hst, Hm, Hpl. cbn [andb].
+  intros s i m a c [Hst Hp Hi W St] Hm Hpl Hr Hc. unfold add_at_addr. rewrite Hst, Hm, Hpl. cbn [andb].
   assert (Hal: p_alive (s_proc s) = true). { rewrite Hp. cbn [p_alive proc_at]. now apply Nat.ltb_lt. }
   assert (W0: WF (r_bps (s_reg s)) (p_mem (s_proc s))). { rewrite Hp. exact W. }
   destruct (add_and_enable_ok (r_bps (s_reg s)) (s_proc s) (mk_bp a (r_next (s_reg s)) 0 false TUser) c W0 Hal Hr Hc)
@@ -693,8 +749,7 @@ Proof.
     + constructor.
       * intros b [Hb|Hb]; [subst b; cbn; auto|]. apply in_del_bp in Hb. apply (st_types _ _ St). tauto.
       * intros b [Hb|Hb] Ht; [subst b; cbn in Ht; discriminate|]. apply in_del_bp in Hb. apply (st_entry _ _ St); tauto.
-      * intros b [Hb|Hb]; [subst b; cbn; exact Hlast|]. apply in_del_bp in Hb. apply (st_last _ _ St). tauto.
-  - intro x. rewrite M'. rewrite Hp. reflexivity.
+  - split; [|reflexivity]. intro x. rewrite M'. rewrite Hp. reflexivity.
 Qed.
 
 (* break remove <addr> at a prompt (no uninit breakpoints while the debuggee runs) *)
@@ -722,7 +777,6 @@ Proof.
       * constructor.
         -- intros c Hc. apply in_del_bp in Hc. apply (st_types _ _ St). tauto.
         -- intros c Hc. apply in_del_bp in Hc. apply (st_entry _ _ St). tauto.
-        -- intros c Hc. apply in_del_bp in Hc. apply (st_last _ _ St). tauto.
     + split; [rewrite HM, N.eqb_refl; reflexivity|]. intros y Hy. rewrite HM. apply N.eqb_neq in Hy. now rewrite Hy.
   - cbn [fst snd]. exists m. eexists. split; [reflexivity|].
     pose proof (find_bp_none _ _ Eb) as Hn.
@@ -786,7 +840,376 @@ Proof.
   intros s Hd He Hx. unfold drop. rewrite Hd, He. destruct (s_status s); cbn; auto.
 Qed.
 
+(* ====================================================================================== *)
+(* ---------- start-up: from the initial state through `run` to the first prompt ---------- *)
+Section Startup.
+Variable entry : N.
+Hypothesis H_off : off <= entry.
+Hypothesis H_entry_readable : readable code entry.
+Hypothesis H_rbrk_readable : readable code rbrk.
+Hypothesis H_rbrk_entry : rbrk <> entry.
+(* the ELF entry point (_start) is executed at most once *)
+Hypothesis H_entry_once : forall k k', (k < length tr)%nat -> (k' < length tr)%nat ->
+  pc_at k = entry -> pc_at k' = entry -> k = k'.
+
+Lemma readable_some : forall a, readable code a -> exists c, code a = Some c.
+Proof.
+  intros a R. specialize (R 0). replace (a + 0) with a in R by lia.
+  destruct (code a) as [c|]; [eauto|]. exfalso. apply R; [cbn; tauto|reflexivity].
+Qed.
+
+Definition entry_u : ubp := mk_ubp (Glob (entry - off)) 0 TEntry false.
+
+(* an uninit user breakpoint that will convert and enable: H_boundary for `break` before `run` *)
+Definition GoodU (u : ubp) : Prop :=
+  u_ty u = TUser /\ exists a, u_key u = Reloc a /\ mapped code a = true /\ has_place a = true /\
+                              readable code a /\ a <> entry /\ a <> rbrk.
+
+Lemma try_into_good : forall u, GoodU u -> exists a, u_key u = Reloc a /\
+  try_into_brkpt code off has_place u = Ok (mk_bp a (u_num u) 0 false TUser) /\ readable code a /\ a <> entry /\ a <> rbrk.
+Proof.
+  intros u (Ht & a & Hk & Hm & Hp & Hr & He & Hb). exists a. split; [exact Hk|]. split; [|auto].
+  unfold try_into_brkpt. rewrite Hk, Hm. cbn [bind]. rewrite Ht, Hp, orb_true_r. reflexivity.
+Qed.
+
+Definition EA_post (l : list ubp) (bps bps' : list bp) : Prop :=
+  (forall b, In b bps' -> In b bps \/
+     (b_ty b = TUser /\ exists u, In u l /\ u_key u = Reloc (b_addr b) /\ b_num b = u_num u)) /\
+  (forall b, In b bps -> (forall u, In u l -> u_key u <> Reloc (b_addr b)) -> In b bps') /\
+  (forall u, In u l -> exists b, In b bps' /\ u_key u = Reloc (b_addr b) /\ b_ty b = TUser).
+
+(* enable_all_breakpoints at the entry point: every good uninit breakpoint becomes an enabled
+   user breakpoint with its number; nothing else changes *)
+Lemma enable_all_ok : forall l bps p, Forall GoodU l -> WF bps (p_mem p) -> p_alive p = true ->
+  let r := enable_all_from code off has_place l bps p in
+  WF (fst r) (p_mem (snd r)) /\ same_but_mem p (snd r) /\ EA_post l bps (fst r).
+Proof.
+  induction l as [|u t IH]; intros bps p HG W Hal.
+  - cbn. split; [exact W|]. split; [apply same_but_mem_refl|]. unfold EA_post. repeat split; auto.
+    intros u [].
+  - inversion HG as [|? ? Gu Gt]; subst. cbn [enable_all_from].
+    destruct (try_into_good u Gu) as (a & Hk & Et & Hr & Hne & Hnb). rewrite Et.
+    destruct (readable_some a Hr) as [c Hc].
+    destruct (add_and_enable_ok bps p (mk_bp a (u_num u) 0 false TUser) c W Hal Hr Hc) as (p1 & E1 & S1 & W1 & M1).
+    rewrite E1. cbn [fst snd].
+    set (nb := bp_set (mk_bp a (u_num u) 0 false TUser) c true) in *.
+    assert (Hal1: p_alive p1 = true) by (destruct S1; congruence).
+    specialize (IH (ins_bp nb bps) p1 Gt W1 Hal1). cbn zeta in IH.
+    destruct IH as (W' & S' & (P1 & P2 & P3)).
+    split; [exact W'|]. split; [eapply same_but_mem_trans; eauto|].
+    unfold EA_post. split; [|split].
+    + intros b Hb. destruct (P1 b Hb) as [Hin|(Hty & u' & Hu' & Hk' & Hn')].
+      * destruct Hin as [Hnb'|Hin].
+        -- right. subst b. split; [reflexivity|]. exists u. split; [now left|]. split; [exact Hk|reflexivity].
+        -- left. apply in_del_bp in Hin. tauto.
+      * right. split; [exact Hty|]. exists u'. split; [now right|auto].
+    + intros b Hb Hno. apply P2.
+      * right. apply in_del_bp. split; [exact Hb|]. cbn [b_addr nb bp_set]. intro E.
+        apply (Hno u (or_introl eq_refl)). rewrite Hk, E. reflexivity.
+      * intros u' Hu'. apply Hno. now right.
+    + intros u' [Hu'|Hu'].
+      * subst u'.
+        destruct (existsb (fun v => address_eqb (u_key v) (Reloc a)) t) eqn:Ex.
+        -- apply existsb_exists in Ex. destruct Ex as [v [Hv Ev]].
+           destruct (P3 v Hv) as (b & Hb & Hkb & Htb). exists b. split; [exact Hb|]. split; [|exact Htb].
+           destruct (u_key v) as [a'|g]; cbn in Ev; [|discriminate]. apply N.eqb_eq in Ev. subst a'.
+           rewrite Hk. exact Hkb.
+        -- exists nb. split; [|split; [exact Hk|reflexivity]]. apply P2; [now left|].
+           intros v Hv E. cbn [b_addr nb bp_set] in E.
+           assert (existsb (fun v => address_eqb (u_key v) (Reloc a)) t = true).
+           { apply existsb_exists. exists v. split; [exact Hv|]. rewrite E. cbn. apply N.eqb_refl. }
+           congruence.
+      * apply P3. exact Hu'.
+Qed.
+
+Record PreStart (s : st) : Prop := mk_PreStart {
+  ps_status : s_status s = Unload;
+  ps_bps : r_bps (s_reg s) = [];
+  ps_entry_in : In entry_u (r_dis (s_reg s));
+  ps_others : forall u, In u (r_dis (s_reg s)) -> u = entry_u \/ GoodU u
+}.
+
+Lemma prestart_init : PreStart (init_launched code tr entry off).
+Proof.
+  constructor; cbn; auto. intros u [Hu|[]]. left. now subst.
+Qed.
+
+(* break <addr> before the program runs *)
+Lemma prestart_add : forall s a, PreStart s ->
+  mapped code a = true -> has_place a = true -> readable code a -> a <> entry -> a <> rbrk ->
+  PreStart (fst (add_at_addr code has_place s a)) /\
+  snd (add_at_addr code has_place s a) = OAdded (r_next (s_reg s)).
+Proof.
+  intros s a [Hs Hb He Ho] Hm Hp Hr Hne Hnb. unfold add_at_addr. rewrite Hs. cbn [fst snd]. split; [|reflexivity].
+  constructor; cbn [with_rp s_status s_reg r_bps r_dis]; auto.
+  - right. unfold del_dis. apply filter_In. split; [exact He|]. reflexivity.
+  - intros u [Hu|Hu].
+    + right. subst u. split; [reflexivity|]. exists a. cbn. auto 10.
+    + unfold del_dis in Hu. apply filter_In in Hu. apply Ho. tauto.
+Qed.
+
+Lemma next_hit_from_ext : forall B B' l k, (forall a, memb a B = memb a B') ->
+  next_hit_from B l k = next_hit_from B' l k.
+Proof.
+  intros B B' l. induction l as [|a t IH]; intros k H; [reflexivity|].
+  cbn [next_hit_from]. rewrite H. destruct (memb a B'); [reflexivity|]. now apply IH.
+Qed.
+
+Lemma memb_ext : forall B B' a, (forall x, In x B <-> In x B') -> memb a B = memb a B'.
+Proof.
+  intros B B' a H. destruct (memb a B) eqn:E1, (memb a B') eqn:E2; auto.
+  - apply memb_iff in E1. apply H in E1. apply memb_iff in E1. congruence.
+  - apply memb_iff in E2. apply H in E2. apply memb_iff in E2. congruence.
+Qed.
+
+(* C01 for `run`: from a pre-start state the program runs to the first arrival at the entry point,
+   arms every pending user breakpoint there, and stops at the first later position that carries one
+   (true pc, that breakpoint's number), at a Prompt; or reports the exit *)
+Theorem C01_run : no_stutter -> (0 < length tr)%nat -> forall s, PreStart s ->
+  let U := pending_addrs off s in
+  match next_hit tr [entry] O with
+  | None => exists s' r, continue_execution code tr rbrk off has_place exit_code s = Ok (s', r) /\
+                         exit_seen r /\ ExitedOK s'
+  | Some e =>
+      match next_hit tr U (S e) with
+      | Some j => exists m' b s', continue_execution code tr rbrk off has_place exit_code s
+                                    = Ok (s', CStop (StopBp (pc_at j) (b_num b))) /\
+                    Prompt s' j m' /\ r_dis (s_reg s') = [] /\
+                    find_bp (pc_at j) (r_bps (s_reg s')) = Some b /\ b_ty b = TUser /\
+                    (forall a, In a (uaddrs (r_bps (s_reg s'))) <-> In a U) /\
+                    (exists u, In u (r_dis (s_reg s)) /\ u_key u = Reloc (pc_at j) /\ u_num u = b_num b)
+      | None => exists s' r, continue_execution code tr rbrk off has_place exit_code s = Ok (s', r) /\
+                             exit_seen r /\ ExitedOK s'
+      end
+  end.
+Proof.
+  intros NS Hlen s [Hs Hb He Ho] U. unfold continue_execution. rewrite Hs.
+  (* enable_entry_breakpoint *)
+  unfold enable_entry.
+  destruct (find (fun u => bty_eqb (u_ty u) TEntry) (r_dis (s_reg s))) as [u0|] eqn:Ef.
+  2:{ eapply find_none in Ef; [|exact He]. cbn in Ef. discriminate. }
+  apply find_some in Ef. destruct Ef as [Hu0 Ht0].
+  assert (u0 = entry_u).
+  { destruct (Ho u0 Hu0) as [|[Ht _]]; [assumption|]. rewrite Ht in Ht0. discriminate. }
+  subst u0. unfold try_into_brkpt. cbn [entry_u u_key u_ty u_num bind].
+  replace (entry - off + off) with entry by lia.
+  destruct (readable_some entry H_entry_readable) as [ce Hce].
+  assert (Wnil: WF [] (p_mem (fresh_proc code tr))).
+  { constructor; [constructor|intros b []|intro x; reflexivity]. }
+  destruct (add_and_enable_ok [] (fresh_proc code tr) (mk_bp entry 0 0 false TEntry) ce) as (p1 & E1 & S1 & W1 & M1); auto.
+  rewrite Hb, E1. cbn [bind fst snd].
+  set (eb := bp_set (mk_bp entry 0 0 false TEntry) ce true) in *.
+  set (dis1 := del_dis (Glob (entry - off)) (r_dis (s_reg s))).
+  assert (Hins: ins_bp eb [] = [eb]) by reflexivity. rewrite Hins in *.
+  set (m1 := p_mem p1) in *.
+  assert (Hp1: p1 = proc_at m1 0).
+  { destruct p1 as [mm a1 ps1 pc1 ex1]. destruct S1 as (A&B&C&D). unfold fresh_proc in *. cbn in *. subst.
+    unfold proc_at. f_equal. symmetry. now apply Nat.ltb_lt. }
+  (* the pending user breakpoints *)
+  assert (Hdis1: Forall GoodU dis1).
+  { apply Forall_forall. intros u Hu. unfold dis1, del_dis in Hu. apply filter_In in Hu. destruct Hu as [Hu Hk].
+    destruct (Ho u Hu) as [->|G]; [|exact G]. cbn in Hk. rewrite N.eqb_refl in Hk. discriminate. }
+  assert (HU: forall a, In a U <-> exists u, In u dis1 /\ u_key u = Reloc a).
+  { intro a. unfold U, pending_addrs. rewrite in_map_iff. split.
+    - intros [u [Ea Hu]]. apply filter_In in Hu. destruct Hu as [Hu Ht].
+      destruct (Ho u Hu) as [->|G]; [cbn in Ht; discriminate|].
+      destruct G as (_ & a' & Hk & _). rewrite Hk in Ea. cbn in Ea. subst a'.
+      exists u. split; [|exact Hk]. unfold dis1, del_dis. apply filter_In. split; [exact Hu|]. now rewrite Hk.
+    - intros [u [Hu Hk]]. unfold dis1, del_dis in Hu. apply filter_In in Hu. destruct Hu as [Hu _].
+      exists u. split; [now rewrite Hk|]. apply filter_In. split; [exact Hu|].
+      destruct (Ho u Hu) as [->|(Ht & _)]; [discriminate|]. now rewrite Ht. }
+  (* first iteration of the loop: run to the entry point *)
+  unfold loop_fuel. remember (S (length tr)) as f1 eqn:Ef1. cbn [cont_loop s_proc]. rewrite Hp1. unfold fuel0.
+  rewrite (run_cpu_spec [eb] m1 (S (length tr)) 0 W1 Hlen) by lia.
+  assert (Haddr: addrs [eb] = [entry]) by reflexivity. rewrite Haddr.
+  unfold next_hit. change (skipn 0 tr) with tr.
+  destruct (next_hit_from [entry] tr 0) as [e|] eqn:En.
+  2:{ cbn [fst snd]. eexists. eexists. split; [reflexivity|]. split; [left; reflexivity|apply exit_state_ok]. }
+  pose proof (next_hit_trace [entry] 0 e (Nat.le_0_l _) En) as (Hel & Hee & _).
+  apply memb_iff in Hee. destruct Hee as [Hee|[]].
+  cbn [fst snd]. rewrite trap_pc, trap_rewind. cbn [s_reg r_bps r_dis r_next].
+  rewrite <- Hee. unfold find_bp. cbn [find b_addr eb bp_set]. rewrite N.eqb_refl.
+  cbn [has_tmp existsb is_temp b_ty eb bp_set bty_eqb andb orb negb].
+  (* enable_all_breakpoints *)
+  assert (Hal0: p_alive (proc_at m1 e) = true) by (cbn [p_alive proc_at]; apply Nat.ltb_lt; lia).
+  pose proof (enable_all_ok dis1 [eb] (proc_at m1 e) Hdis1 W1 Hal0) as EA. cbn zeta in EA.
+  fold dis1.
+  destruct (enable_all_from code off has_place dis1 [eb] (proc_at m1 e)) as [bps2 p2] eqn:Eea.
+  cbn [fst snd] in EA |- *. destruct EA as (W2 & S2 & (P1 & P2 & P3)).
+  (* the linker-map breakpoint *)
+  destruct (readable_some rbrk H_rbrk_readable) as [cr Hcr].
+  assert (Hal2: p_alive p2 = true) by (destruct S2 as (A&_); congruence).
+  destruct (add_and_enable_ok bps2 p2 (mk_bp rbrk 0 0 false TLinker) cr W2 Hal2 H_rbrk_readable Hcr) as (p3 & E3 & S3 & W3 & M3).
+  rewrite E3. cbn [bind fst snd].
+  set (lb := bp_set (mk_bp rbrk 0 0 false TLinker) cr true) in *.
+  set (bps3 := ins_bp lb bps2) in *.
+  assert (Hp3: p3 = proc_at (p_mem p3) e).
+  { pose proof (same_but_mem_trans _ _ _ S2 S3) as (A&B&C&D). clear - A B C D.
+    destruct p3 as [mm a1 ps1 pc1 ex1]. cbn [p_alive p_pos p_pc p_exec p_mem proc_at] in *.
+    rewrite A, B, C, D. reflexivity. }
+  set (m3 := p_mem p3) in *.
+  (* facts about the registry after the entry-point handling *)
+  assert (Heb_in: In eb bps3).
+  { right. apply in_del_bp. split.
+    - apply P2; [now left|]. intros u Hu Ek. cbn [b_addr eb bp_set] in Ek.
+      rewrite Forall_forall in Hdis1. destruct (Hdis1 u Hu) as (_ & a & Hk & _ & _ & _ & Hne & _). congruence.
+    - cbn. auto. }
+  assert (Hin3: forall b, In b bps3 -> b = lb \/ b = eb \/
+            (b_ty b = TUser /\ b_addr b <> rbrk /\ exists u, In u dis1 /\ u_key u = Reloc (b_addr b) /\ b_num b = u_num u)).
+  { intros b [Hb3|Hb3]; [now left|]. apply in_del_bp in Hb3. destruct Hb3 as [Hb3 Hnr]. right.
+    destruct (P1 b Hb3) as [[Hbe|[]]|(Hty & Hex)]; [now left|]. right. cbn [b_addr lb bp_set] in Hnr. auto. }
+  assert (Hua: forall a, In a (uaddrs bps3) <-> In a U).
+  { intro a. rewrite uaddrs_in, HU. split.
+    - intros (b & Hb3 & Hty & Hab). destruct (Hin3 b Hb3) as [->|[->|(_ & _ & u & Hu & Hk & _)]]; try discriminate.
+      exists u. rewrite <- Hab. auto.
+    - intros (u & Hu & Hk). destruct (P3 u Hu) as (b & Hb2 & Hkb & Hty).
+      assert (b_addr b = a) by congruence. exists b. split; [|auto]. right. apply in_del_bp. split; [exact Hb2|].
+      cbn [b_addr lb bp_set]. rewrite Forall_forall in Hdis1.
+      destruct (Hdis1 u Hu) as (_ & a' & Hk' & _ & _ & _ & _ & Hnb). congruence. }
+  assert (St3: Steady bps3 (S e)).
+  { constructor.
+    - intros b Hb3. destruct (Hin3 b Hb3) as [->|[->|(Hty & _)]]; cbn; auto.
+    - intros b Hb3 Hty k Hk. destruct (Hin3 b Hb3) as [->|[->|(Hty' & _)]]; [discriminate| |congruence].
+      cbn [b_addr eb bp_set]. intro E. assert (k = e) by (apply H_entry_once; auto; lia). lia. }
+  (* step over the entry-point breakpoint *)
+  unfold step_over_breakpoint. rewrite Hp3. cbn [p_pc proc_at]. rewrite <- Hee.
+  destruct (find_bp_in entry bps3) as [b0 Eb0].
+  { unfold addrs. apply in_map_iff. exists eb. split; [reflexivity|exact Heb_in]. }
+  rewrite Eb0. destruct (find_bp_some _ _ _ Eb0) as [Hb0 Hab0].
+  destruct (wf_bp _ _ W3 b0 Hb0) as (Hen0 & _). rewrite Hen0.
+  assert (Hab0': b_addr b0 = pc_at e) by congruence.
+  assert (Hsame: forall i0, next_hit_from (uaddrs bps3) (skipn i0 tr) i0 = next_hit_from U (skipn i0 tr) i0).
+  { intro i0. apply next_hit_from_ext. intro a. apply memb_ext. exact Hua. }
+  destruct (Nat.eq_dec (S e) (length tr)) as [Elast|Elast].
+  - (* the entry point is the last instruction: the step ends the process *)
+    destruct (step_over_core_exit bps3 m3 e b0 W3 Elast Hb0 Hab0') as (m4 & Ec).
+    rewrite Ec. cbn [bind fst snd]. rewrite Elast, skipn_all. cbn [next_hit_from].
+    eexists. eexists. split; [reflexivity|]. split; [right; reflexivity|apply exit_by_step_ok].
+  - assert (HSe: (S e < length tr)%nat) by lia.
+    destruct (step_over_core_once bps3 m3 e b0 NS W3 HSe Hb0 Hab0') as (m4 & Ec & W4 & Hm4).
+    rewrite Ec. cbn [bind fst snd]. rewrite (put_bp_same bps3 b0 (wf_nodup _ _ W3) Hb0).
+    match goal with |- context [cont_loop _ _ _ _ _ _ ?f ?s2] =>
+      pose proof (cont_steady NS f (S e) m4 s2) as C end.
+    cbn [with_rp s_reg s_proc r_bps] in C.
+    assert (Hfu: (f1 > length tr - S e)%nat) by lia.
+    specialize (C eq_refl HSe W4 St3 Hfu). rewrite Hsame in C.
+    destruct (next_hit_from U (skipn (S e) tr) (S e)) as [j|] eqn:Enj.
+    + destruct C as (m' & b & E & F & T & W' & Hm').
+      apply next_hit_trace in Enj; [|lia]. destruct Enj as (Hj & _).
+      exists m', b. eexists. split; [exact E|].
+      split; [|split; [reflexivity|split; [exact F|split; [exact T|split; [exact Hua|]]]]].
+      * constructor; cbn [with_bps with_rp s_status s_proc s_reg r_bps]; auto; [lia|].
+        eapply steady_mono; [exact St3|lia].
+      * destruct (find_bp_some _ _ _ F) as [Hbin Hbaddr].
+        destruct (Hin3 b Hbin) as [->|[->|(_ & _ & u & Hu & Hk & Hn)]]; try discriminate.
+        exists u. unfold dis1, del_dis in Hu. apply filter_In in Hu. destruct Hu as [Hu _]. rewrite <- Hbaddr.
+        split; [exact Hu|split; [exact Hk|symmetry; exact Hn]].
+    + exact C.
+Qed.
+
+(* ---------- whole histories [Add*; Continue; (Add | RemoveAddr | Continue)*] ---------- *)
+(* H_boundary for one user address *)
+Definition GoodA (a : N) : Prop :=
+  mapped code a = true /\ has_place a = true /\ readable code a /\ a <> entry /\ a <> rbrk.
+
+(* states before `run`: the initial state after any number of `break <addr>` *)
+Inductive Pre : st -> Prop :=
+| Pre_init : Pre (init_launched code tr entry off)
+| Pre_add : forall s a, Pre s -> GoodA a -> Pre (fst (add_at_addr code has_place s a)).
+
+(* states of the running program reached by run / break / break remove / continue, while the
+   commands stop at breakpoints *)
+Inductive Run : st -> Prop :=
+| Run_start : forall s s' pc n, Pre s ->
+    continue_execution code tr rbrk off has_place exit_code s = Ok (s', CStop (StopBp pc n)) -> Run s'
+| Run_add : forall s a, Run s -> GoodA a -> Run (fst (add_at_addr code has_place s a))
+| Run_remove : forall s a, Run s ->
+    Run (let x := remove_by_addr (Reloc a) (s_reg s) (s_proc s) in with_rp s (fst (fst x)) (snd (fst x)))
+| Run_cont : forall s s' pc n, Run s ->
+    continue_execution code tr rbrk off has_place exit_code s = Ok (s', CStop (StopBp pc n)) -> Run s'.
+
+Lemma pre_prestart : forall s, Pre s -> PreStart s.
+Proof.
+  induction 1 as [|s a HP IH (Hm & Hp & Hr & He & Hb)]; [apply prestart_init|].
+  now apply prestart_add.
+Qed.
+
+Lemma exit_seen_not_bp : forall r pc n, exit_seen r -> r <> CStop (StopBp pc n).
+Proof. intros r pc n [->| ->]; discriminate. Qed.
+
+(* every state of such a history is a Prompt: C01_continue / add_prompt / remove_prompt /
+   mem_is_patch_prompt / C02_transparent_prompt apply at every step of the history *)
+Theorem run_is_prompt : no_stutter -> (0 < length tr)%nat -> forall s, Run s ->
+  exists i m, Prompt s i m /\ r_dis (s_reg s) = [].
+Proof.
+  intros NS Hlen s HR. induction HR as [s s' pc n HP E|s a HR IH G|s a HR IH|s s' pc n HR IH E].
+  - pose proof (C01_run NS Hlen s (pre_prestart s HP)) as C. cbn zeta in C.
+    destruct (next_hit tr [entry] 0) as [e|].
+    + destruct (next_hit tr (pending_addrs off s) (S e)) as [j|].
+      * destruct C as (m' & b & s'' & E' & P & Hd & _). rewrite E in E'. inversion E'; subst. eauto.
+      * destruct C as (s'' & r & E' & Hx & _). rewrite E in E'. inversion E'; subst.
+        exfalso. eapply exit_seen_not_bp; eauto.
+    + destruct C as (s'' & r & E' & Hx & _). rewrite E in E'. inversion E'; subst.
+      exfalso. eapply exit_seen_not_bp; eauto.
+  - destruct IH as (i & m & P & Hd). destruct G as (Hm & Hp & Hr & _).
+    destruct (readable_some a Hr) as [c Hc].
+    destruct (add_prompt s i m a c P Hm Hp Hr Hc) as (s' & m' & E & P' & _ & _ & Hd').
+    rewrite E. cbn [fst]. exists i, m'. split; [exact P'|congruence].
+  - destruct IH as (i & m & P & Hd).
+    destruct (remove_prompt s i m a P Hd) as (m' & v & _ & P' & _ & Hd' & _).
+    exists i, m'. split; [exact P'|exact Hd'].
+  - destruct IH as (i & m & P & Hd).
+    pose proof (C01_continue NS s i m P) as C. cbn zeta in C.
+    destruct (next_hit tr (uaddrs (r_bps (s_reg s))) (S i)) as [j|].
+    + destruct C as (m' & b & s'' & E' & _ & _ & _ & P' & _ & Hd'). rewrite E in E'. inversion E'; subst.
+      exists j, m'. split; [exact P'|congruence].
+    + destruct C as (s'' & r & E' & Hx & _). rewrite E in E'. inversion E'; subst.
+      exfalso. eapply exit_seen_not_bp; eauto.
+Qed.
+
+End Startup.
+
+(* ---------- the instruction that ends the process (repair c0ceee6) ---------- *)
+(* continuing from a prompt on the last instruction of the trace (with or without a breakpoint on
+   it) reports the exit with the program's code and leaves the registry / process as a normal exit *)
+Theorem C02_continue_from_last : no_stutter -> forall s i m, Prompt s i m -> S i = length tr ->
+  exists s' r, continue_execution code tr rbrk off has_place exit_code s = Ok (s', r) /\
+               exit_seen r /\ ExitedOK s'.
+Proof.
+  intros NS s i m P Hl. pose proof (C01_continue NS s i m P) as C. cbn zeta in C.
+  unfold next_hit in C. rewrite Hl, skipn_all in C. cbn [next_hit_from] in C. exact C.
+Qed.
+
+(* stepi on the last instruction: Err(ProcessExit(exit_code)) after the exit handling *)
+Theorem C02_stepi_last : forall s i m, Prompt s i m -> S i = length tr ->
+  exists s', stepi code tr off exit_code s = (s', OExit exit_code) /\ ExitedOK s'.
+Proof.
+  intros s i m [Hst Hp Hi W St] Hl. unfold stepi. rewrite Hst, Hp. cbn [p_pc proc_at].
+  destruct (find_bp (pc_at i) (r_bps (s_reg s))) as [b|] eqn:Eb.
+  - destruct (find_bp_some _ _ _ Eb) as [Hb Hab]. destruct (wf_bp _ _ W b Hb) as (Hen & _).
+    unfold step_over_breakpoint. cbn [p_pc proc_at]. rewrite Eb, Hen.
+    destruct (step_over_core_exit _ m i b W Hl Hb Hab) as (m1 & Ec). rewrite Ec. cbn [bind fst snd].
+    eexists. split; [reflexivity|apply exit_by_step_ok].
+  - pose proof (find_bp_none _ _ Eb) as Hn. unfold fuel0. cbn [BpMachine.single_step].
+    rewrite (cpu_step_exec _ _ _ W Hi Hn). cbn [fst snd].
+    replace (p_alive (proc_at m (S i))) with false
+      by (symmetry; unfold proc_at; cbn [p_alive]; apply Nat.ltb_ge; lia).
+    cbn [fst snd]. rewrite Hl. eexists. split; [reflexivity|apply exit_by_step_ok].
+Qed.
+
 End Proofs.
+
+
+(* Drop of a debugger whose launched program was never started (or was re-installed by a restart and
+   not yet run): SIGKILL, then waitpid until the child has really terminated (repair 74c6c3e): nothing
+   is left, the registry is untouched *)
+Theorem C11_drop_never_started : forall off s, s_status s = Unload -> s_detached s = false -> s_external s = false ->
+  s_fate (drop off s) = FReaped /\ s_reg (drop off s) = s_reg s.
+Proof. intros off s Hs Hd He. unfold drop. rewrite Hd, He, Hs. cbn. auto. Qed.
+
+Example C11_drop_init : forall code tr entry off,
+  s_fate (drop off (init_launched code tr entry off)) = FReaped.
+Proof. reflexivity. Qed.
 
 (* ---------- decidable forms of the hypotheses ---------- *)
 Fixpoint no_stutterb (l : list N) : bool :=
@@ -822,6 +1245,40 @@ Definition wrun (tr : list N) (ops : list op) : st * list outcome :=
 Definition wspec (tr : list N) (ops : list op) : list outcome := abs_run tr 10 7%Z abs_init ops.
 Definition tr_w : list N := [10; 20; 30; 20; 30; 40; 50].
 
+(* decidable form of "the entry point is executed at most once" *)
+Definition entry_onceb (entry : N) (tr : list N) : bool :=
+  Nat.leb (length (filter (N.eqb entry) tr)) 1.
+
+Lemma count_two : forall (e : N) (l : list N) k k', (k < k')%nat -> (k' < length l)%nat ->
+  nth k l 0 = e -> nth k' l 0 = e -> (2 <= length (filter (N.eqb e) l))%nat.
+Proof.
+  intros e l. induction l as [|a t IH]; intros k k' Hlt Hk' E1 E2; cbn [length] in Hk'; [lia|].
+  destruct k' as [|k']; [lia|]. destruct k as [|k].
+  - cbn [nth] in E1, E2. subst a. cbn [filter]. rewrite N.eqb_refl. cbn [length].
+    assert (In e t). { rewrite <- E2. apply nth_In. lia. }
+    assert (In e (filter (N.eqb e) t)). { apply filter_In. split; [assumption|apply N.eqb_refl]. }
+    destruct (filter (N.eqb e) t); [contradiction|cbn [length]; lia].
+  - cbn [nth] in E1, E2. cbn [filter]. assert (2 <= length (filter (N.eqb e) t))%nat by (eapply (IH k k'); eauto; lia).
+    destruct (e =? a); cbn [length]; lia.
+Qed.
+
+Lemma entry_onceb_sound : forall entry tr, entry_onceb entry tr = true ->
+  forall k k', (k < length tr)%nat -> (k' < length tr)%nat -> pc_at tr k = entry -> pc_at tr k' = entry -> k = k'.
+Proof.
+  intros entry tr H k k' Hk Hk' E1 E2. unfold entry_onceb in H. apply Nat.leb_le in H. unfold pc_at in *.
+  destruct (Nat.lt_trichotomy k k') as [Hlt|[Heq|Hgt]]; [|exact Heq|].
+  - pose proof (count_two entry tr k k' Hlt Hk' E1 E2). lia.
+  - pose proof (count_two entry tr k' k Hgt Hk E2 E1). lia.
+Qed.
+
+(* the start-up theorem applies to the witness machine: its conclusion computed by the theorem
+   agrees with what vm_compute gives for the model *)
+Example startup_hypotheses_nonvacuous :
+  entry_onceb 10 tr_w = true /\ trace_okb nop tr_w = true /\ no_stutterb tr_w = true /\
+  next_hit tr_w [10] 0 = Some 0%nat /\ next_hit tr_w [20] 1 = Some 1%nat /\
+  snd (wrun tr_w [Add 20; Continue]) = [OAdded 1; OStop (StopBp 20 1)].
+Proof. vm_compute. auto 10. Qed.
+
 Example hypotheses_nonvacuous : trace_okb nop tr_w = true /\ no_stutterb tr_w = true.
 Proof. vm_compute. auto. Qed.
 
@@ -854,10 +1311,14 @@ Theorem C01_self_loop_refuted : exists tr ops,
 Proof. exists [10; 20; 20; 30; 40], [Add 20; Continue; Continue]. vm_compute. auto. Qed.
 
 (* stepping (stepi, or continue from a breakpoint) over the instruction that terminates the
-   process unwraps a removed tracee: tracer.rs:538 *)
-Theorem C02_exit_step_panics : exists tr ops,
-  snd (wrun tr ops) = [OAdded 1; OStop (StopBp 40 1); ODone; OPanic SITE_TRACEE_GONE].
-Proof. exists [10; 20; 40; 50], [Add 40; Continue; StepI; StepI]. vm_compute. reflexivity. Qed.
+   process reports the exit with the program's code (was a panic before /repo c0ceee6); the user
+   breakpoint survives as an uninit breakpoint with its number, as after a normal exit *)
+Example C02_exit_step_example :
+  let x := wrun [10; 20; 40; 50] [Add 40; Continue; StepI; StepI] in
+  snd x = [OAdded 1; OStop (StopBp 40 1); ODone; OExit 7] /\
+  s_status (fst x) = Exited /\ s_fate (fst x) = FReaped /\ snapshot (s_reg (fst x)) = [(1, Glob 40)] /\
+  snd (wrun [10; 20; 40] [Add 40; Continue; Continue]) = [OAdded 1; OStop (StopBp 40 1); OExit 7].
+Proof. vm_compute. auto. Qed.
 
 (* C02_error_paths: an early `?` return between the installation of the temporaries and their
    removal leaves them behind: the byte stays 0xCC, the registry keeps a Temporary; from then on
